@@ -400,6 +400,15 @@ func genPQPlan(r *vcommon.Rand, maxTotal int, search bool) pqPlan {
 }
 
 func runPQPlan(c *vcommon.Case, p pqPlan, timed bool) {
+	for attempt := 0; attempt < maxAttempts; attempt++ {
+		if runPQPlanOnce(c, p, timed, attempt) != porcupine.Unknown {
+			return
+		}
+	}
+}
+
+// runPQPlanOnce executes the plan once; porcupine.Unknown asks for another execution.
+func runPQPlanOnce(c *vcommon.Case, p pqPlan, timed bool, attempt int) porcupine.CheckResult {
 	api := newPQ(p.kind)
 	var clk atomic.Int64
 	var hist []porcupine.Operation
@@ -422,18 +431,18 @@ func runPQPlan(c *vcommon.Case, p pqPlan, timed bool) {
 	transaction.VerifSetYield(0)
 	if h.Hung {
 		c.Inconclusive(fmt.Sprintf("%s: clients still running after %s", api.Name(), joinTimeout))
-		return
+		return porcupine.Ok
 	}
 	for _, pmsg := range h.Panics {
 		c.Violation("panic", api.Name()+": "+strings.SplitN(pmsg, "\n", 2)[0], map[string]any{"stack": pmsg})
 	}
 	if len(h.Panics) > 0 {
-		return
+		return porcupine.Ok
 	}
 	hist = append(hist, h.Ops...)
 	if msg := api.Check(); msg != "" {
 		c.Violation("structure", api.Name()+" after the concurrent part: "+msg, map[string]any{"history": render(hist, pqModel.DescribeOperation)})
-		return
+		return porcupine.Ok
 	}
 	// drain sequentially (recorded, so the final content is checked too)
 	var drain []step
@@ -457,7 +466,7 @@ func runPQPlan(c *vcommon.Case, p pqPlan, timed bool) {
 		switch {
 		case out.Err != "":
 			c.Violation("bad-result", api.Name()+": "+descPQ(in, out), map[string]any{"history": render(hist, pqModel.DescribeOperation)})
-			return
+			return porcupine.Ok
 		case in.Kind == pqPush && out.OK:
 			acc[in.ID]++
 		case in.Kind == pqPop && out.OK:
@@ -476,7 +485,7 @@ func runPQPlan(c *vcommon.Case, p pqPlan, timed bool) {
 		if n > acc[id] {
 			c.Violation("yielded-twice", fmt.Sprintf("%s: tx %x accepted %d time(s) but yielded %d time(s)", api.Name(), id, acc[id], n),
 				map[string]any{"history": render(hist, pqModel.DescribeOperation)})
-			return
+			return porcupine.Ok
 		}
 	}
 	if !timed {
@@ -500,7 +509,9 @@ func runPQPlan(c *vcommon.Case, p pqPlan, timed bool) {
 				}
 			}
 		}
-		decide(c, api.Name(), pqModel, hist, map[string]any{"yield_pct": p.yield, "gomaxprocs": p.procs})
+		if res := decide(c, api.Name(), pqModel, hist, map[string]any{"yield_pct": p.yield, "gomaxprocs": p.procs}, attempt); res == porcupine.Unknown {
+			return res
+		}
 	}
 	// interleaving fingerprint: client ids in call order + kinds
 	var sb strings.Builder
@@ -517,6 +528,7 @@ func runPQPlan(c *vcommon.Case, p pqPlan, timed bool) {
 		}
 		c.Sample(map[string]any{"target": api.Name(), "clients": len(p.progs), "history": r})
 	}
+	return porcupine.Ok
 }
 
 // pqDrainOrder is the order oracle of the untimed (race-detector) workload,
